@@ -1,4 +1,4 @@
 SPECIFICATION Spec
-CONSTANTS FixZ1=TRUE FixQ1=FALSE Procs={"syncdb","syncdb2","disable","snap","enable"}
+CONSTANTS FixZ1=TRUE FixQ1=FALSE FixR=TRUE Procs={"syncdb","syncdb2","disable","snap","enable"}
 INVARIANTS ReadLockWhileOpen
 CHECK_DEADLOCK FALSE
